@@ -126,6 +126,32 @@ def reentrant_case(col, pid, rng, cidx, jobref):
                                                                                   inner_source=S.render(sp)), rp)
     if how == "dag_object_as_node_function":
         col.generic(log, rp)
+        # a DAG with such nodes is a DAG like any other: it can be re-configured (naming those nodes) and called inside another DAG
+        step = rng.choice(["reconfigured", "nested", "both"])
+        if o_async:
+            step = "reconfigured"  # (calling a DAG inside a description is the sync flavour's feature)
+        tgt = od
+        try:
+            if step in ("reconfigured", "both"):
+                names = [i for i in od.exec_nodes if not (">!>" in i or "<!<" in i) and not i.startswith("post_")]
+                od.config_from_dict({"nodes": {i: {"priority": 2} for i in names}})
+            if step in ("nested", "both"):
+                def outer2(x):
+                    return od(x)
+
+                outer2.__name__ = outer2.__qualname__ = "outer2_%d" % cidx
+                tgt = dag(outer2, max_concurrency=omc, is_async=o_async)
+            B.reset_log()
+            r2 = probes.run_op("outer_call_" + step, lambda: asyncio.run(_await(tgt, [x])) if o_async else tgt(x))
+        except BaseException as e:  # noqa: BLE001
+            if isinstance(e, (KeyboardInterrupt, SystemExit)):
+                raise
+            r2 = ("exc", e)
+        col.counters["env_dag_object_nodes:" + step] += 1
+        if r2[0] != "ok" or not same(exp, r2[1]):
+            col.violation(pid, "dag_with_a_dag_object_as_node_function_wrong_when_" + step, dict(
+                outcome=short(r2, 300), cause=repr(getattr(r2[1], "__cause__", None))[:200] if r2[0] == "exc" else None, expected=short(exp, 300),
+                **rp["outer"], inner_source=S.render(sp)), rp)
     else:
         _judge_tokens(col, pid, log, sp, d, plain, calls, rp, "inner execution started from a node body")
     # the inner DAG afterwards: as freshly built
